@@ -3,6 +3,7 @@
 package proxy
 
 import (
+	"time"
 	"crypto/sha1"
 	"encoding/base64"
 	"fmt"
@@ -19,7 +20,7 @@ import (
 // C12 end to end: access rules and route authentication gate every HTTP request.
 func TestVerifC12HTTP(t *testing.T) {
 	L := ev.Begin("C12", "c12-http", "exploration",
-		"access rule {none, allow v4 block, deny v4 block, allow v6 block, allow with malformed item, allow+deny, allow and deny with one malformed item next to a well-formed one} x auth scheme {none, known basic, unknown} x configured scheme map {one scheme, empty, nil} x peer (4) x X-Forwarded-For (none/inside/outside) x credentials {none, good, bad password, unknown user, malformed basic header, other scheme} x {proxied route, redirect route} x {GET, CORS preflight OPTIONS} through the real HTTPProxy.ServeHTTP with a real htpasswd file; oracle: 403 / 401 / 200 exactly as the statement prescribes and the upstream hit counter stays 0 unless admitted and authorised. non-trivial = case with a rule or an auth scheme")
+		"access rule {none, allow v4 block, deny v4 block, allow v6 block, allow with malformed item, allow+deny, allow and deny with one malformed item next to a well-formed one} x auth scheme {none, known basic, unknown} x configured scheme map {one scheme, empty, nil} x peer (4) x X-Forwarded-For (none/inside/outside) x credentials {none, good, bad password, unknown user, malformed basic header, other scheme} x {proxied route, redirect route} x {GET, CORS preflight OPTIONS} through the real HTTPProxy.ServeHTTP with a real htpasswd file; oracle: 403 / 401 / 200 exactly as the statement prescribes and the upstream hit counter stays 0 unless admitted and authorised; plus one htpasswd history with refresh (user served, removed from the file, reload observed, old credentials refused). non-trivial = case with a rule or an auth scheme")
 	dir, err := os.MkdirTemp("", "c12")
 	if err != nil {
 		panic(err)
@@ -192,5 +193,57 @@ func TestVerifC12HTTP(t *testing.T) {
 			L.Violation(kind, d)
 		}
 	})
+	// credentials follow the htpasswd file (refresh=50ms): a user that was served is taken out of the file, another one
+	// is put in. The new user being accepted shows that the reload has happened (causal barrier, up to 20s); from
+	// then on the old credentials get 401 and the upstream is not contacted for them.
+	{
+		hp2 := filepath.Join(dir, "htpasswd-refresh")
+		line := func(user, pw string) string {
+			sum := sha1.Sum([]byte(pw))
+			return user + ":{SHA}" + base64.StdEncoding.EncodeToString(sum[:]) + "\n"
+		}
+		os.WriteFile(hp2, []byte(line("alice", "s3cret")), 0o600)
+		sch, err := auth.LoadAuthSchemes(map[string]config.AuthScheme{"fresh": {Name: "fresh", Type: "basic", Basic: config.BasicAuth{File: hp2, Realm: "r", Refresh: 50 * time.Millisecond}}})
+		if err != nil {
+			panic("VERIF-INFRA: " + err.Error())
+		}
+		r := newRig()
+		defer r.close()
+		r.proxy.AuthSchemes = sch
+		r.setTable("route add svc / http://" + r.upAddr + "/ opts \"auth=fresh\"\n")
+		r.script = script{status: 200, chunks: [][]byte{[]byte("ok")}}
+		try := func(user, pw string) (int, int64) {
+			cred := base64.StdEncoding.EncodeToString([]byte(user + ":" + pw))
+			rec, _, hits, err := r.do(rawRequest("GET", "/x", "foo.com", [][2]string{{"Authorization", "Basic " + cred}}, nil, false), "10.9.8.7:4711", nil)
+			if err != nil {
+				panic(err)
+			}
+			return rec.Code, hits
+		}
+		L.Case()
+		L.NontrivialKey("htpasswd-reload")
+		d := map[string]interface{}{"history": []string{"alice:s3cret served", "file rewritten: alice removed, bob added", "bob accepted (reload done)", "alice:s3cret again"}}
+		if code, hits := try("alice", "s3cret"); code != 200 || hits != 1 {
+			d["first_request"] = code
+			L.Violation("authorised-request-not-served", d)
+		} else {
+			os.WriteFile(hp2, []byte(line("bob", "hunter2")), 0o600)
+			future := time.Now().Add(5 * time.Second)
+			os.Chtimes(hp2, future, future) // the reload looks at the modification time
+			reloaded := false
+			for deadline := time.Now().Add(20 * time.Second); time.Now().Before(deadline); time.Sleep(20 * time.Millisecond) {
+				if code, _ := try("bob", "hunter2"); code == 200 {
+					reloaded = true
+					break
+				}
+			}
+			if !reloaded {
+				L.Cap("the htpasswd file was not reloaded within 20s: revocation not observed")
+			} else if code, hits := try("alice", "s3cret"); code != 401 || hits != 0 {
+				d["status_for_the_revoked_credentials"], d["upstream_hits"] = code, hits
+				L.Violation("revoked-credentials-still-accepted-after-reload", d)
+			}
+		}
+	}
 	L.End(true)
 }
